@@ -39,7 +39,7 @@ def keep(e):
     if k == "store":
         return re.match(r"\$1\.\w+$", e["place"]) is not None or e["field"] in ("stco", "co64") or e["adt"] == "MvhdBox"
     if k == "agg":
-        return e["adt"] in ("Mp4Writer",)
+        return e["adt"] in ("Mp4Writer", "MvhdBox")
     return False
 
 
@@ -268,7 +268,9 @@ class Mux:
             size = "Sub(%s, $1.mdat_pos)" % E
 
             def norm(s):
-                # the canonical renderer abbreviates deep sub-terms with `_`: compare modulo that
+                # the canonical renderer abbreviates deep sub-terms with `_`: compare modulo that; a checked narrowing that
+                # succeeded (`u32::try_from(size)` on its Ok arm) is the value itself
+                s = re.sub(r"^TryFrom::try_from\((.*)\)@[\w.]+$", r"\1", s)
                 return re.sub(r"\([^()]*\)@", "(_)@", s)
             body_ops = ops[1:]
             if not body_ops or body_ops[-1][0] != "seek" or norm(body_ops[-1][1][0]) != norm("SeekFrom::Start(%s)" % E):
@@ -315,7 +317,7 @@ class Mux:
                     v = e["val"]
                     if "None" in v and "try_from" not in v:
                         continue
-                    if "try_from(" not in v or "unwrap" in v or "expect" in v:
+                    if "try_from" not in v or "unwrap" in v or "expect" in v:
                         bad = v
         out.append((n > 0 and bad is None, "stco-install", "stco stored only from the Ok result of the checked conversion (%d store sites on success paths)" % n if bad is None and n else
                     "the 32-bit chunk-offset table is installed from %s" % (bad or "nowhere"), self.tw_end, None))
